@@ -110,3 +110,11 @@ Proof.
   - rewrite Hd. vm_compute. discriminate.
   - exists r, rt. auto.
 Qed.
+
+(* the zoned rendering: same instant, the zone's wall clock and offset *)
+Example issue_instant_zoned_examples :
+  issue_instant_text_zoned 1715000000123456789 0 = issue_instant_text 1715000000123456789
+  /\ issue_instant_text_zoned 1715000000123456789 19800 = "2024-05-06T18:23:20.123+05:30"
+  /\ issue_instant_text_zoned 1715000000000000001 (-18000) = "2024-05-06T07:53:20-05:00"
+  /\ parse_relaxed "2024-05-06T18:23:20.123+05:30" = Ok (wire_instant 1715000000123456789).
+Proof. vm_compute. repeat split; reflexivity. Qed.
